@@ -18,12 +18,17 @@ def obl_rule(rid, descr, scope, floor, select=lambda s: True):
     r = RuleResult(rid, descr, floor=floor)
     n_ok = n_vet = n_int = 0
     vet_c = {v.get("ckey") for v in vet.values() if v.get("ckey")} | {v.get("skey") for v in vet.values() if v.get("skey")}
+    vet_g = {v.get("gkey") for v in vet.values() if v.get("gkey")}      # kind|subject, any function
+    vet_f = {v.get("fkey") for v in vet.values() if v.get("fkey")}      # function|kind
     for s in d["sites"]:
         if not select(s): continue
         r.sites += 1
         if s["ok"]: n_ok += 1; continue
         coarse_ok = not s["kind"].startswith("panic")     # an explicit panic is vetted by its message only
-        if s["key"] in vet or (coarse_ok and (s.get("ckey") in vet_c or s.get("skey") in vet_c)): n_vet += 1; continue
+        sk = s.get("skey") or ""
+        gk = "|".join(sk.split("|")[1:]) if sk.count("|") >= 2 else None
+        fk = "|".join(sk.split("|")[:2]) if sk.count("|") >= 2 else None
+        if s["key"] in vet or (coarse_ok and (s.get("ckey") in vet_c or s.get("skey") in vet_c or gk in vet_g or fk in vet_f)): n_vet += 1; continue
         if not s.get("tainted", True):
             # not input-dependent: an invariant of the library's own state (map membership, own counters, loop indices over own containers).
             # C06/C07 quantify over the bytes handed in; such operations are counted as "not decided" instead of reported.
